@@ -167,3 +167,27 @@ Example C12_unroll_example :
 Proof. split; [reflexivity|]. eexists. split; [vm_compute; reflexivity|]. repeat split; reflexivity. Qed.
 Example C12_until_example : act_until nat S (fun n => Nat.eqb n 3) 5 0%nat = Ok 3%nat.
 Proof. reflexivity. Qed.
+(* further non-vacuity: the hypotheses of the implication theorems are met by concrete data *)
+Example C12_inverse_twice_example :
+  exists o1 o2, t_inv (OSub [[OLeaf (Leaf 0 false [0] [] [] [])]] (SubF (RInt 2) None false [] [] [] [] [] None)) = Ok o1 /\
+                t_inv o1 = Ok o2.
+Proof. eexists. eexists. split; reflexivity. Qed.
+Example C12_rescope_finds_example :
+  (1 <= List.length ["p"; "0"]%string)%nat /\
+  In (key_prefix (firstn 1 ["p"; "0"]%string) (MK [] "a")) [MK ["p"]%string "a"; MK [] "a"].
+Proof. split; [simpl; auto | left; reflexivity]. Qed.
+Example C12_key_dict_twice_example :
+  In "a"%string ["a"; "b"]%string /\
+  name_map (kmap_compose ["a"; "b"]%string (kmap_compose ["a"; "b"]%string [] [("a", "b"); ("b", "a")]%string) [("a", "c")]%string) "b"%string = "c"%string.
+Proof. split; [left; reflexivity | reflexivity]. Qed.
+Example C12_with_params_twice_example :
+  presolve (pmap_compose ["t"]%string [("t", PSym "s")]%string [("s", PVal 2)]%string) (PSym "t") = PVal 2.
+Proof. reflexivity. Qed.
+Example C12_repeat_until_complete_example :
+  (1 <= 3)%nat /\ Nat.eqb (Nat.iter 3 S 0%nat) 3 = true /\ (forall j, (1 <= j < 3)%nat -> Nat.eqb (Nat.iter j S 0%nat) 3 = false).
+Proof.
+  split; [auto|]. split; [reflexivity|]. intros j [H1 H2].
+  destruct j as [|[|[|j]]]; try reflexivity; exfalso; inversion H1; repeat (apply le_S_n in H2); inversion H2.
+Qed.
+Example C12_zero_rep_not_ok : op_ok zero_rep_witness = false.
+Proof. reflexivity. Qed.
